@@ -33,6 +33,8 @@ def run(c):
         "cannot observe the steps and the check reports the correspondence as broken"]
     c.coverage["rule"] = (
         "hook-free judge first (VerifHook unset; only Cache().once is used, also to observe the cache's content): every sequential "
+        "call sequence runs on a fresh cache in its own goroutine under a timeout (a wedged cache is abandoned and reported as a hang with the "
+        "sequence as replay), with int results and with results drawn from None, False, 0, \"\", (), [], a fresh list, 1, \"v<key>\"; "
         "call sequence up to length 4 over 2 keys with ok/fail callables and 3000 (thorough 60000) free-running configurations of <=8 "
         "callers x <=4 calls x 3 keys. Then, for the trace correspondence: "
         "controlled scheduler over the real goroutines calling the real Starlark builtin Cache().once: EVERY interleaving of all "
